@@ -119,10 +119,10 @@ package bech32
 //@   call fmt.Errorf#5 requires len(arg1) == 2 && typeis(arg1[0], "int") && typeis(arg1[1], "int32")        [C18]
 //@   call fmt.Errorf#6 requires len(arg1) == 0                                                           [C18]
 //@   ensures#nil err != nil ==> hrp == "" && data == nil                                               [C09 C14]
-//@   ensures#ascii err == nil ==> printable(old(s))                                                    [C09 C14]
-//@   ensures#case err == nil ==> (nolower(old(s)) || noupper(old(s)))                                  [C09]
-//@   ensures#hrp err == nil ==> len(hrp) >= 1 && printable(hrp) && hasprefix(old(s), hrp) && len(hrp) + 7 <= len(old(s)) && at(old(s), len(hrp)) == 49   [C09]
-//@   ensures#lastsep err == nil ==> (forall j in len(hrp)+1..len(old(s)) :: at(old(s), j) != 49)        [C09]
+//@   ensures#ascii err == nil ==> printable(old(s))                                                    [C09 C14 C18]
+//@   ensures#case err == nil ==> (nolower(old(s)) || noupper(old(s)))                                  [C09 C18]
+//@   ensures#hrp err == nil ==> len(hrp) >= 1 && printable(hrp) && hasprefix(old(s), hrp) && len(hrp) + 7 <= len(old(s)) && at(old(s), len(hrp)) == 49   [C09 C18]
+//@   ensures#lastsep err == nil ==> (forall j in len(hrp)+1..len(old(s)) :: at(old(s), j) != 49)        [C09 C18]
 //@   fresh data when len(data) > 0
 //@   modifies nothing
 
